@@ -446,7 +446,9 @@ class VariableCovarianceGaussianEnergy(LikelihoodEnergyOperator):
         """
         r = FieldAdapter(self._domain[self._kr], self._kr)
         ivar = FieldAdapter(self._domain[self._kr], self._ki).real
-        sc = 1. if self._cplx else 0.5
+        # The Fisher metric of the inverse covariance is 1/(2 i^2) (real) and
+        # 1/i^2 (complex data)
+        sc = np.sqrt(0.5) if self._cplx else 0.5
         f = r.adjoint @ (ivar.sqrt()*r) + ivar.adjoint @ (sc*ivar.log())
         return self._dt, f
 
